@@ -34,7 +34,24 @@ def close(a, b, tol=1e-9):
     return abs(a - b) <= tol * max(1.0, abs(a), abs(b))
 
 
-def compare_array(U, arr, exp, mode, val=None, what="result", tie_ok=False):
+def compare_nan(U, arr, exp, cfg):
+    """x's last entry is NaN: the result is NaN exactly at the entries whose polynomial contains that generator"""
+    probs = U.check_dims(arr.dims, exp["dims"]) + U.check_shape(arr)
+    if probs or not cfg["xd"] and False:
+        return probs
+    last = U.labtuple(cfg["xd"], [U.labels(l)[-1] for l in cfg["xd"]])
+    for t, pj in exp["val"]:
+        p = Poly.from_json(pj)
+        depends = any(g == (1, last) for m in p.t for g, _ in m)
+        got = U.entry(arr, tuple(t))
+        if bool(got != got) != depends:
+            probs.append(f"result[{tuple(t)}] is {'NaN' if got != got else got} although it {'depends' if depends else 'does not depend'} "
+                         f"on the NaN entry x{list(last)}")
+            break
+    return probs
+
+
+def compare_array(U, arr, exp, mode, val=None, what="result", tie_ok=False, tol=1e-9, rel=False):
     """arr: flodym array; exp: {'dims': [...], 'val': [[labtuple, poly json], ...]}."""
     probs = U.check_dims(arr.dims, exp["dims"], what) + U.check_shape(arr, what)
     if probs:
@@ -50,7 +67,12 @@ def compare_array(U, arr, exp, mode, val=None, what="result", tie_ok=False):
                 probs.append(f"{what}[{tuple(t)}] = {got!r}, expected {p!r}")
         else:
             want = p.eval(val)
-            if not close(got, want):
+            if rel:     # purely relative comparison (very large / very small magnitudes)
+                ok = (want == 0 and float(got) == 0.0) or (want != 0 and abs(float(got) / float(want) - 1.0) <= 1e-9)
+                if not ok:
+                    probs.append(f"{what}[{tuple(t)}] = {got!r}, expected {float(want)!r} ({p!r})")
+                continue
+            if not close(got, want, tol):
                 probs.append(f"{what}[{tuple(t)}] = {got!r}, expected {float(want)!r} ({p!r})")
         if len(probs) > 4:
             break
@@ -128,6 +150,11 @@ def apply_op(U, cfg, x, y, S):
         return abs(x)
     if op == "sign":
         return x.sign()
+    if op in ("abs_inplace", "sign_inplace"):
+        r = x.abs(inplace=True) if op == "abs_inplace" else x.sign(inplace=True)
+        if r is not None:
+            raise AssertionError("in-place call returned a value")
+        return x
     # reduce family
     if op == "sum_to":
         return x.sum_to(name_dims(U, cfg["yd"], cfg["form"]))
@@ -142,7 +169,8 @@ def apply_op(U, cfg, x, y, S):
     raise ValueError(op)
 
 
-ORD_OPS = {"min", "max", "abs", "abs_builtin", "sign", "min_s", "max_s"}
+ORD_OPS = {"min", "max", "abs", "abs_builtin", "sign", "min_s", "max_s", "abs_inplace", "sign_inplace"}
+INPLACE_OPS = {"abs_inplace", "sign_inplace"}
 NUM_ONLY = {"pow": ((1, 3), (0, 3)), "pow_s": ((1, 3), None), "shares": ((-2, 7), None)}
 
 
@@ -150,14 +178,17 @@ def run_vector(vec):
     """Returns a list of problem strings (empty = conforms)."""
     cfg = vec["cfg"]
     exp = vec["res"]
-    U = Universe.from_pattern(vec["pattern"])
+    # names are not tied to letters: every second vector names its dimensions with the names rotated by one letter
+    U = Universe.from_pattern(vec["pattern"], name_shift=(len(cfg["xd"]) + len(cfg["yd"]) + cfg["seed"]) % 2)
     op = cfg["op"]
     problems = []
     runs = []
     if op in NUM_ONLY:
         runs = [("num", "C"), ("num", "F")]
     else:
-        runs = [("sym", "C"), ("num", "C"), ("num", "F"), ("num", "I")]     # I: values stored with an INTEGER dtype
+        # I: values stored with an INTEGER dtype; S: float32; B: all values scaled by 2^40 (exact); N: one entry is NaN
+        # T: all values scaled by 2^-40 (no absolute thresholds)
+        runs = [("sym", "C"), ("num", "C"), ("num", "F"), ("num", "I"), ("num", "S"), ("num", "B"), ("num", "T"), ("num", "N")]
     for mode, layout in runs:
         Poly.seed = cfg["seed"] if op in ORD_OPS else None
         if op in NUM_ONLY:
@@ -171,9 +202,25 @@ def run_vector(vec):
         else:
             xval = yval = val = gen_val
         try:
+            if layout in ("B", "T") and (op in ORD_OPS or op in ("pow", "pow_s")):
+                continue     # scaling runs only for polynomial / rational operations
+            if layout == "N" and (op in ORD_OPS or op in ("div_s", "rdiv_s", "div", "pow", "pow_s")):
+                continue     # NaN run only for the NaN-transparent polynomial operations
+
             def vals(k, ds, v):
-                a = U.gen_values(k, ds, mode, v, "C" if layout == "I" else layout)
-                return a.astype(np.int64) if layout == "I" else a
+                a = U.gen_values(k, ds, mode, v, layout if layout in ("C", "F") else "C")
+                if layout == "I":
+                    return a.astype(np.int64)
+                if layout == "S":
+                    return a.astype(np.float32)
+                if layout == "B" and mode == "num":
+                    return a * 2.0 ** 40
+                if layout == "T" and mode == "num":
+                    return a * 2.0 ** -40
+                if layout == "N" and mode == "num" and k == 1 and a.size:
+                    a = a.copy()
+                    a[(-1,) * a.ndim] = np.nan          # the LAST entry of x
+                return a
             x = U.array(cfg["xd"], vals(1, cfg["xd"], xval), name="x")
             y = None
             if op in ("add", "sub", "mul", "div", "min", "max", "pow"):
@@ -193,7 +240,8 @@ def run_vector(vec):
             raised = e
             r = None
         tag = f"[{mode}/{layout}] "
-        problems += [tag + p for p in unchanged(x, sx, "operand x")]
+        if op not in INPLACE_OPS:
+            problems += [tag + p for p in unchanged(x, sx, "operand x")]
         if y is not None:
             problems += [tag + p for p in unchanged(y, sy, "operand y")]
         if exp["error"]:
@@ -219,6 +267,14 @@ def run_vector(vec):
                     problems.append(tag + f"(array scaled by 2^-40) raised {type(e).__name__}: {str(e)[:120]}")
         elif op in NUM_ONLY:
             problems += [tag + p for p in compare_array(U, r, exp, "num", lambda g: 0)]
+        elif layout in ("B", "T"):
+            # every generator was scaled by 2^+-40 (the plain number stays as it is): exact in binary floating point
+            fac = Fraction(2) ** (40 if layout == "B" else -40)
+            problems += [tag + p for p in compare_array(U, r, exp, mode, lambda g: val(g) * (1 if abs(g[0]) == 9 else fac), rel=True)]
+        elif layout == "N":
+            problems += [tag + p for p in compare_nan(U, r, exp, cfg)]
+        elif layout == "S":
+            problems += [tag + p for p in compare_array(U, r, exp, mode, val, tie_ok=op in ORD_OPS, tol=2e-5)]
         else:
             problems += [tag + p for p in compare_array(U, r, exp, mode, val, tie_ok=op in ORD_OPS)]
     Poly.seed = None
